@@ -904,7 +904,9 @@ func main() {
 	specs := append([]*spec{}, upto1...)
 	n2 := 1500
 	if a.Thorough() {
-		n2 = 8000
+		// 8000 (universe 22992 terms, 5.3e8 ordered pairs) did not finish the direct oracle in 20 CPU minutes;
+		// 4000 gives 15000 terms / 2.3e8 pairs in ~40 s
+		n2 = 4000
 	}
 	if a.N > 0 {
 		n2 = a.N
